@@ -42,6 +42,57 @@ def viewErrRender : ViewErr → String
   | .proj .zero => "ERR proj-zero"
   | .proj .empty => "ERR proj-empty"
 
+/-- `hist.arr shape values ops` — a call history on ONE array object (integer data): `get:<idx>`, `set:<flat>:<value>`,
+    `view:<axis>:<pos>:<ncalls>`, `axis:<axis>:<ncalls>`, `indices:<ncalls>`, `sum:<axis>` (result returned),
+    `resum:<axis>` (the object is replaced by its axis sum), `clone`. Every answer must be what the pure model functions
+    return on the object's current contents. -/
+def histArrStep (st : Arr Nat) (op : String) (tok : String) : Option (Arr Nat × Bool) :=
+  match op.splitOn ":" with
+  | ["get", ix] => do
+    let idx ← parseNats ix
+    pure (st, tok == (match st.get idx with | some v => s!"S{v}" | none => "N"))
+  | ["set", f, v] => do
+    let i ← f.toNat?; let x ← v.toNat?
+    pure (⟨st.data.set i x, st.shape⟩, tok == "-")
+  | ["clone"] => some (st, tok == "-")
+  | ["view", ax, pos, n] => do
+    let ax ← ax.toNat?; let pos ← pos.toNat?; let n ← n.toNat?
+    match st.getAxis ax pos with
+    | none => pure (st, tok == "NOVIEW")
+    | some v => pure (st, tok == String.intercalate "," (history v.next v.len (fun (x : Nat) => toString x) n (ViewIter.init v)))
+  | ["axis", ax, n] => do
+    let ax ← ax.toNat?; let n ← n.toNat?
+    pure (st, tok == String.intercalate "," (history (st.axisNext ax) (st.axisLen ax) (fun (v : View Nat) => String.intercalate "/" (v.toList.map toString)) n 0))
+  | ["indices", n] => do
+    let n ← n.toNat?
+    pure (st, tok == String.intercalate "," (history (indicesNext st.shape) (indicesLen st.shape) (fun l => String.intercalate "/" (l.map toString)) n 0))
+  | ["sum", ax] | ["resum", ax] => do
+    let ax ← ax.toNat?
+    if ax ≥ st.shape.length then none else
+    let r := st.sumAxis ax
+    if op.startsWith "re" then pure (r, tok == "-")
+    else pure (st, tok == s!"{String.intercalate "/" (r.shape.map toString)}|{String.intercalate "/" (r.data.map toString)}")
+  | _ => none
+
+def handleHistArr (a : List String) (impl : String) : Option Verdict :=
+  match a with
+  | [sh, vs, opss] => do
+    let shape ← parseNats sh; let data ← parseNats vs
+    let ops := opss.splitOn ";"
+    let toks := impl.splitOn ";"
+    if ops.length != toks.length then pure (.bad s!"{ops.length} answers expected") else
+    let rec go (st : Arr Nat) (i : Nat) : List (String × String) → Option (Option (Nat × String))
+      | [] => some none
+      | (op, tok) :: rest =>
+        match histArrStep st op tok with
+        | none => none
+        | some (st', ok) => if ok then go st' (i + 1) rest else some (some (i, op))
+    match go ⟨data, shape⟩ 0 (ops.zip toks) with
+    | none => none
+    | some none => pure (.ok s!"histarr-d{shape.length}")
+    | some (some (i, op)) => pure (.bad s!"call {i} ({op}) does not return what the model computes on the array's current contents")
+  | _ => none
+
 def handle (op : String) (a : List String) (impl : String) : Option Verdict :=
   match op, a with
   | "c19.get", [sh, ix] => do
@@ -156,6 +207,8 @@ def handle (op : String) (a : List String) (impl : String) : Option Verdict :=
     | [p, "cli"] => handleCli a impl p
     | ["c12", "same"] => handleSame a impl
     | ["ct", "create"] => handleBytes a impl
+    | ["hist", "scs"] => handleHist a impl
+    | ["hist", "arr"] => handleHistArr a impl
     | ["io", _] => handleIo op a impl
     | ["st", _] => handleStat op a impl
     | ["pn", _] => handlePanic op a impl
